@@ -23,6 +23,8 @@ def check(ctx):
     from . import core9
 
     core9.validated_arguments_run_independent(ctx, "C07")
+    # a validator must not see a call that is not enabled (calls in the alternative not taken never block, C07's last clause)
+    core2.body_validate_arguments(ctx, "C07")
     core9.module_connector(ctx, "C07")
 
 
